@@ -116,7 +116,7 @@ func c05R1(p *core.Program, r *core.Report, pl *pipeline) {
 		n++
 		of, oe, why := origin(cs.In, recvOf(cs.Call), 0)
 		call, isCall := ast.Unparen(oe).(*ast.CallExpr)
-		good := why == "" && isCall && core.CalleeFunc(of.Info(), call) == newFn.Obj() && of.Root() == pl.pkgExec &&
+		good := why == "" && isCall && core.CalleeFunc(of.Info(), call) == newFn.Obj() && pl.pkgExec.Has(of) &&
 			loop.Body.Pos() <= call.Pos() && call.End() <= loop.Body.End() && len(call.Args) == 1 && core.VarOf(of.Info(), call.Args[0]) == gen
 		if why == "" && !good {
 			why = "the value originates from `" + core.ExprStr(oe) + "` in " + of.QName()
